@@ -917,7 +917,8 @@ inline void filter_with_build(Rng& r, J& o, const J& filter) {
         } else {
             e = {(int64_t)r.below(12), (int64_t)r.below(12)};
         }
-        if (e.first < 0 || e.second < 0 || wanted.count(e) || !gone.insert(e).second) continue;
+        // (layer and type are 32-bit fields: a relative of 4294967295 must not wrap round onto a wanted tag)
+        if (e.first < 0 || e.second < 0 || e.first > 0xFFFFFFFFLL || e.second > 0xFFFFFFFFLL || wanted.count(e) || !gone.insert(e).second) continue;
         all.push_back({e.first, e.second, 0});
     }
     for (size_t i = all.size(); i > 1; i--) std::swap(all[i - 1], all[r.below(i)]);
